@@ -246,6 +246,8 @@ ALLOC_CORPUS = [
     '[1.5, "s"]; functie p() { } stel r = p(); stel q = 7.25 + 0.0',
     '"abc"; functie p(n) { stel i = 0; zolang i < n { i += 1; stel w = [i] } } stel r = p(3)',
     'functie p() { stel z = [0.5] } functie q() { p(); [2.5] } q(); stel a = p(); stel b = p()',
+    'functie h() { 0 } functie g() { h() } functie main() { stel x = 1.5 + 1.0; g(); stel y = 4.0 * 2.0; [x, y] } main()',
+    'functie h(n) { als n > 0 { h(n - 1) } [n] } functie main(a) { stel s = string(a); stel l = [s, a + 0.5]; h(3); stel t = string(a + 1); [s, l, t] } main(7)',
     # a fresh activation never sees what an earlier one left in its slots (a stale word could point at a released box)
     'functie g() { stel y = [1.5]; stel z = "s"; 0 } functie f() { stel b = b; b } g(); [f(), f()]',
     'functie g(n) { stel y = [n + 0.5]; als n > 0 { g(n - 1) } 0 } functie f(a, b, c) { [a, b, c] } g(3); f(1)',
